@@ -46,6 +46,7 @@ func H64(s string) uint64 {
 
 type Run struct {
 	Prop, Tier     string
+	Config         string // build configuration (extra build tags) this worker was built with, "" = default
 	Shard, NShards int
 	Seed           int64
 	ReplayCase     string // when set, only the case with this id is executed
@@ -136,6 +137,9 @@ func (r *Run) runCase(id string, nontrivial bool, body func() *Fail, always bool
 		}
 		return
 	}
+	if r.Config != "" {
+		id = id + "|cfg=" + r.Config
+	}
 	r.Evaluations++
 	if nontrivial {
 		r.cases[H64(id)] = struct{}{}
@@ -191,6 +195,7 @@ func protect(body func() *Fail) (f *Fail) {
 
 // ShardResult is what a worker writes.
 type ShardResult struct {
+	Config       string
 	Prop, Tier   string
 	Shard, N     int
 	Evaluations  int64
@@ -233,7 +238,7 @@ func (r *Run) Write(path string) error {
 		return err
 	}
 	fh.Close()
-	sr := ShardResult{Prop: r.Prop, Tier: r.Tier, Shard: r.Shard, N: r.NShards, Evaluations: r.Evaluations, Transitions: r.Transitions,
+	sr := ShardResult{Config: r.Config, Prop: r.Prop, Tier: r.Tier, Shard: r.Shard, N: r.NShards, Evaluations: r.Evaluations, Transitions: r.Transitions,
 		Traces: r.Traces, Cases: len(r.cases), States: len(r.states), Outcomes: r.Outcomes, Dims: r.Dims, Failures: r.Failures,
 		FailCount: r.FailCount, FailByKind: r.FailByKind, Samples: r.Samples, Notes: r.Notes, Bound: r.Bound, CapHit: r.CapHit,
 		WallS: r.Elapsed(), HashFile: hf}
